@@ -43,6 +43,7 @@ func HistCheckFor(prop string) (HistCheck, bool) {
 		hc.Rule = "histories emphasising multi-branch trees consolidated repeatedly, small prune depths via hook, reloads; every accepted header looked up through every by-hash API after every op"
 	case "C10":
 		g.WClean = 14
+		g.WMark, g.WUnmark = 2, 1 // what invalid-marking leaves in the hash lookup only shows at the next prune
 		g.PruneDepths = []int{0, 0, 8, 12, 20}
 		g.BaseLens = longBases([]int{0, 0, 1, 2, 3, 8, 20}, longEvery, []int{999, 1002, 2000})
 		hc.Rule = "histories with Clean at every kind of position (after reorgs, repeated, several side branches), then continued; snapshot before == after for tip, every height, every header's height and flag"
@@ -134,7 +135,7 @@ func RunHist(prop, tier string, seed int64) int {
 	}
 	if prop == "C18" {
 		run.Extra("proofs", map[string]int64{"valid_proofs_verified": c18Obs.valid, "corrupted_proofs_tried": c18Obs.corrupt,
-			"blocks_on_best_chain": c18Obs.bestBlocks, "blocks_on_side_branches": c18Obs.sideBlocks, "blocks_in_pruned_history": c18Obs.prunedBlocks, "blocks_excluded_by_invalid_marking": c18Obs.removedBlocks})
+			"blocks_on_best_chain": c18Obs.bestBlocks, "blocks_on_side_branches": c18Obs.sideBlocks, "blocks_in_pruned_history": c18Obs.prunedBlocks, "blocks_excluded_by_invalid_marking": c18Obs.removedBlocks, "proofs_for_side_blocks_a_load_may_have_dropped": c18Obs.droppedBlocks})
 	}
 	return run.Finish()
 }
